@@ -46,11 +46,11 @@ type mAcc struct {
 
 type model struct {
 	atStart map[string]bool // names that existed when the current block started
-	acc   map[int]*mAcc
-	total *big.Int
-	names map[string]int // name -> owner key index
-	min   *big.Int
-	price *big.Int
+	acc     map[int]*mAcc
+	total   *big.Int
+	names   map[string]int // name -> owner key index
+	min     *big.Int
+	price   *big.Int
 }
 
 func (m *model) a(i int) *mAcc {
@@ -590,9 +590,9 @@ func TestC15KnownPreV2Vote(t *testing.T) {
 		root = r
 	}
 	run(1, 1, op{kind: "stake", from: 0, amount: vnode.StakeMin})
-	run(2, 2, op{kind: "votebp", from: 0, cands: []string{vnode.BPN(0).Enc()}})        // fork version 0: not in the ranking
+	run(2, 2, op{kind: "votebp", from: 0, cands: []string{vnode.BPN(0).Enc()}})          // fork version 0: not in the ranking
 	run(100001, 3, op{kind: "votedao", from: 0, issue: "BPCOUNT", cands: []string{"3"}}) // version 2: in the ranking
-	run(200002, 4, op{kind: "unstake", from: 0, amount: vnode.StakeMin})                // shrinks both votes
+	run(200002, 4, op{kind: "unstake", from: 0, amount: vnode.StakeMin})                 // shrinks both votes
 	rec.Case("regression", "prev2-vote", true, func() interface{} { return "stake, voteBP@v0, voteDAO@v2, unstake@v3" })
 	rec.Case("regression", "prev2-vote-2", true, func() interface{} { return "second fingerprint of the same history" })
 	scs, err := statedb.GetSystemAccountState(N.CS.SDB().OpenNewStateDB(root))
